@@ -402,6 +402,23 @@ CLAIMED.update(
     }
 )
 
+CLAIMED.update(
+    {
+        "C32": (
+            "who-may-write typestate on the execution trace (every writer behind the thread-ownership check, every mutation through the thread-local state), handler-order rule on exec paths, bounded-join and fresh-result shape rules in the executor",
+            "Decides the mechanism that keeps an abandoned execution from polluting later results: every ExecutionTracer method that mutates the trace is wrapped by _early_return or "
+            "calls self.check() before its first write, undecorated private writers are reachable only from such methods and not from outside the class; the wrapper returns when disabled, "
+            "then calls check(), which raises TracingAbortedException exactly when the current thread is not the recorded owner; __enter__ records and stop() revokes ownership; every "
+            "trace mutation goes through self._thread_local_state.trace of a threading.local subclass and no plain attribute of the tracer holds the current trace; on every exec path a "
+            "TracingAbortedException handler that re-raises or records the abort precedes any BaseException / bare handler; the executor joins its daemon thread with timeouts that are "
+            "the configured maximum or a min() containing it, stops the tracer when the thread is still alive, answers with a fresh ExecutionResult(timeout=True) and uses a fresh result "
+            "queue per execution. The wall-clock bound and code that reaches no instrumentation point are not decided.",
+            "Trusts python's ast and name-based recognition of trace mutators.",
+            "DESIGN.md §3 C32",
+        ),
+    }
+)
+
 NOT_APPLICABLE: dict[str, str] = {
     "C06": "Correctness of the post-dominator/CDG construction on every code object is functional correctness of a graph "
     "algorithm; no shape of the code implies it and no sound static argument in reach bounds 'all code objects'.",
